@@ -18,6 +18,15 @@ namespace Life
 @[simp] theorem andThen_fst (x : M) (f : Actor → M) : (andThen x f).1 = (f x.1).1 := rfl
 @[simp] theorem andThen_snd (x : M) (f : Actor → M) : (andThen x f).2 = x.2 ++ (f x.1).2 := rfl
 
+/-! ### the events `Actor.step` appends to `stepCore` -/
+
+def supTail (a a' : Actor) : List Out := if a'.sup = a.sup then [] else [.ev (.supIs a'.sup)]
+def snapTail (a' : Actor) : List Out := if a'.phase = .fresh then [] else [.ev (.snap a'.snap)]
+
+theorem step_eq (a : Actor) (op : AOp) :
+    a.step op = ((a.stepCore op).1,
+      (a.stepCore op).2 ++ supTail a (a.stepCore op).1 ++ snapTail (a.stepCore op).1) := rfl
+
 /-! ### exit paths only emit supervision events and the join / spawn result -/
 
 def Ev.isExitNoise : Ev → Bool
@@ -103,6 +112,25 @@ theorem Sim.mono {R1 R2 : Actor → σ → Prop} {s : σ} {x : M}
     (h : Sim next R1 s x) (hm : ∀ a s, R1 a s → R2 a s) : Sim next R2 s x := by
   obtain ⟨s1, ha, hr⟩ := h
   exact ⟨s1, ha, hm _ _ hr⟩
+
+theorem accepts_snapTail (hsnap : ∀ s sn, next s (.snap sn) = .ok s) (s : σ) (a' : Actor) :
+    accepts next s (evs (snapTail a')) = .ok s := by
+  unfold snapTail; split <;> simp [accepts_cons, hsnap]
+
+theorem accepts_supTail (hsup : ∀ s p, next s (.supIs p) = .ok s) (s : σ) (a a' : Actor) :
+    accepts next s (evs (supTail a a')) = .ok s := by
+  unfold supTail; split <;> simp [accepts_cons, hsup]
+
+/-- Lifting a simulation of `stepCore` to `step` when the appended events are neutral. -/
+theorem step_sim_of_core {R : Actor → σ → Prop} (hsup : ∀ s p, next s (.supIs p) = .ok s)
+    (hsnap : ∀ s sn, next s (.snap sn) = .ok s) {a : Actor} {s : σ} {op : AOp}
+    (h : Sim next R s (a.stepCore op)) : Sim next R s (a.step op) := by
+  obtain ⟨s1, hacc, hr⟩ := h
+  refine ⟨s1, ?_, hr⟩
+  rw [step_eq]
+  simp only [evs_append]
+  rw [accepts_append next _ (by rw [accepts_append next _ hacc]; exact accepts_supTail next hsup s1 a _)]
+  exact accepts_snapTail next hsnap s1 _
 
 end accepts
 
